@@ -9,9 +9,11 @@
    the operand of `as` / a unary operator / a postfix form, bare as a right operand, a cast is
    also parenthesised as an operand of a comparison / bit operator / shift (rustc's generics
    ambiguity), a negative literal as the operand of `as`, a unary or a postfix operator.
-   Two conventions of this grammar: a one-element tuple is `(e,)`; an index expression
-   that would start with an unsuffixed number is parenthesised (`a[(1 + i)]`), because the
-   parser reads `[ <unsuffixed number>` as a complete usize index.
+   One convention of this grammar: a one-element tuple is `(e,)`.  An index is printed as it
+   is (`a[1 + i]`: the index of `[..]` is a full expression); the parser retypes an index that
+   is exactly an unsuffixed number to usize, so such a tree (`UArrayAccess a (UNumUnsigned i
+   UnspecifiedU)`) is not the result of any parse and is excluded by [wf_expr]; a usize index
+   prints with its suffix (`a[1usize]`) and parses back to itself (so does `a[1]`, to the same tree).
 
    [parse_show_min]: for every well-formed tree, [parse_expr] on [show_min e ++ rest] returns
    (e, rest), provided rest does not start with a token that continues an expression
@@ -87,10 +89,6 @@ Definition parens (s : list token) : list token := tk TLeftParen :: s ++ [tk TRi
 Definition at_ (j : nat) (right : bool) (x : uexpr) (sx : list token) : list token :=
   if paren_needed j right x then parens sx else sx.
 
-(* `a[ <unsuffixed number> ..` is read as a complete usize index: parenthesise *)
-Definition index_toks (s : list token) : list token :=
-  match unspec_index s with Some _ => parens s | None => s end.
-
 Fixpoint show_raw (e : uexpr) : list token :=
   let more := fix more (es : list uexpr) : list token :=
     match es with [] => [] | y :: r => tk TComma :: show_raw y ++ more r end in
@@ -101,7 +99,7 @@ Fixpoint show_raw (e : uexpr) : list token :=
   | UNumSigned z t => [tk (TSignedNum z t)]
   | UIdentifier s => [tk (TIdentifier s)]
   | UArrayAccess a i =>
-      at_ 14 false a (show_raw a) ++ tk TLeftBracket :: index_toks (show_raw i) ++ [tk TRightBracket]
+      at_ 14 false a (show_raw a) ++ tk TLeftBracket :: show_raw i ++ [tk TRightBracket]
   | UTupleLiteral es =>
       tk TLeftParen ::
         match es with
@@ -148,7 +146,8 @@ Fixpoint wf_expr (e : uexpr) : Prop :=
   match e with
   | UTrue | UFalse | UNumUnsigned _ _ | UNumSigned _ _ => True
   | UIdentifier s => ident_ok s
-  | UArrayAccess a i => wf_expr a /\ wf_expr i
+  (* an index that is a bare unsuffixed number is retyped to usize by the parser *)
+  | UArrayAccess a i => wf_expr a /\ wf_expr i /\ retype_index i = i
   | UTupleLiteral es => all es
   | UTupleAccess x _ => wf_expr x
   | UStructAccess x _ => wf_expr x
@@ -461,7 +460,7 @@ Proof.
   - intros. eexists. cbn. repeat split; intros; try discriminate; auto.
   - intros. eexists. cbn. repeat split; intros; try discriminate; auto.
   - intros. eexists. cbn. repeat split; intros; try discriminate; auto.
-  - intros a i IHa _. destruct (Hat 14%nat a IHa false (tk TLeftBracket :: index_toks (show_raw i) ++ [tk TRightBracket]))
+  - intros a i IHa _. destruct (Hat 14%nat a IHa false (tk TLeftBracket :: show_raw i ++ [tk TRightBracket]))
       as (t & Ht & Hs & H14).
     exists t. cbn [show_raw prec].
     split; [exact Ht|]. repeat split; intros; try discriminate; auto.
@@ -904,36 +903,21 @@ Proof.
     apply (Hf g n); lia.
 Qed.
 
-Lemma unspec_index_app s r : unspec_index s = None -> s <> [] -> unspec_index (s ++ r) = None.
+Lemma index_ev i : Top i -> forall b rest,
+  EvE (PState (show_raw i ++ tk TRightBracket :: rest) b) i (PState (tk TRightBracket :: rest) b).
 Proof.
-  destruct s as [|[t m] s']; [congruence|]. intros H _. cbn [app]. destruct t; try reflexivity.
-  destruct t; try reflexivity. discriminate H.
+  intros HT b rest. apply HT. apply nofollow_tok; [reflexivity|intros l H; discriminate H].
 Qed.
 
-Lemma index_ev i : Top i -> Par i -> forall b rest,
-  unspec_index (index_toks (show_raw i) ++ tk TRightBracket :: rest) = None /\
-  EvE (PState (index_toks (show_raw i) ++ tk TRightBracket :: rest) b) i (PState (tk TRightBracket :: rest) b).
+Lemma cp_arr a i : Gen a -> Top i -> retype_index i = i -> CP (UArrayAccess a i).
 Proof.
-  intros HT HP b rest.
-  assert (Hnf : forall k, nofollow k b (tk TRightBracket :: rest)).
-  { intro k. apply nofollow_tok; [reflexivity|intros l H; discriminate H]. }
-  unfold index_toks. destruct (unspec_index (show_raw i)) as [[v r]|] eqn:Eu.
-  - split; [reflexivity|]. apply eve_of_ev1; [reflexivity|].
-    apply (HP 1%nat b _ i (PState (tk TRightBracket :: rest) b) ltac:(lia) (Hnf 2%nat)).
-    apply (evl_exit 1 0); [lia|apply Hnf].
-  - split; [|apply HT, Hnf]. apply unspec_index_app; [exact Eu|].
-    destruct (show_head i) as (t & Ht & _). intro E. rewrite E in Ht. discriminate Ht.
-Qed.
-
-Lemma cp_arr a i : Gen a -> Top i -> Par i -> CP (UArrayAccess a i).
-Proof.
-  intros HG HT HP b rest r s' Hnf HL. cbn [prec show_raw] in *. rewrite <- app_assoc. cbn [app].
+  intros HG HT Hri b rest r s' Hnf HL. cbn [prec show_raw] in *. rewrite <- app_assoc. cbn [app].
   apply (HG 14%nat 14%nat false b _ r s' ltac:(lia) ltac:(lia)).
   - apply nofollow_tok; [reflexivity|intros l [= <-]; lia].
-  - destruct HL as [f Hf]. destruct (index_ev i HT HP b rest) as [Hu [f2 H2]].
+  - destruct HL as [f Hf]. destruct (index_ev i HT b rest) as [f2 H2].
     exists (S (Nat.max f f2)). intros g n Hg Hn. destruct n as [|n]; [lia|].
     cbn [loop_at postfix_loop]. rewrite !peek_hd, !nm_hd. rewrite teqb_refl. cbn [orb toks sla].
-    rewrite <- app_assoc. cbn [app]. rewrite Hu. rewrite (H2 g n) by lia. cbn [bindp].
+    rewrite <- app_assoc. cbn [app]. rewrite (H2 g n) by lia. cbn [bindp]. rewrite Hri.
     unfold expect. rewrite nm_hd, teqb_refl. apply (Hf g n); lia.
 Qed.
 
@@ -1007,8 +991,8 @@ Proof.
   - intros n t _. apply cp_numu.
   - intros z t _. apply cp_nums.
   - intros s H. now apply cp_ident.
-  - intros a i IHa IHi [Ha Hi]. destruct (all_of_cp a (IHa Ha)) as (_ & _ & _ & HGa).
-    destruct (all_of_cp i (IHi Hi)) as (_ & HTi & HPi & _). now apply cp_arr.
+  - intros a i IHa IHi (Ha & Hi & Hri). destruct (all_of_cp a (IHa Ha)) as (_ & _ & _ & HGa).
+    destruct (all_of_cp i (IHi Hi)) as (_ & HTi & _ & _). now apply cp_arr.
   - intros es IH H. rewrite wf_tuple in H. apply cp_tuple. now apply tops_of.
   - intros x i IHx H. destruct (all_of_cp x (IHx H)) as (_ & _ & _ & HG). now apply cp_tupacc.
   - intros x f IHx H. destruct (all_of_cp x (IHx H)) as (_ & _ & _ & HG). now apply cp_structacc.
@@ -1231,15 +1215,24 @@ Module ParseExamples.
     Some (UTupleLiteral [UTupleLiteral [v "a"; v "b"]; UTupleLiteral [v "c"]; UTupleLiteral []], []).
   Proof. vm_compute. reflexivity. Qed.
 
-  (* a quirk of the grammar (mirrored from parse_primary): after `[` an unsuffixed number is taken
-     as the complete (usize) index, so `a[1 + i]` is a parse error while `a[i + 1]` and
-     `a[(1 + i)]` are fine; [show_min] prints the parentheses *)
-  Example ex_index_quirk :
-    p "a[1 + i]" = None /\
+  (* the index of `[..]` is a full expression; an index that is exactly an unsuffixed number
+     (also in parentheses) is a usize; a tree with a bare unsuffixed number as index is not the
+     result of a parse ([wf_expr] excludes it: printed and parsed again it comes back as usize) *)
+  Example ex_index :
+    p "a[1 + i]" = Some (UArrayAccess (v "a") (UOp BAdd (n 1) (v "i")), []) /\
     p "a[i + 1]" = Some (UArrayAccess (v "a") (UOp BAdd (v "i") (n 1)), []) /\
     p "a[(1 + i)]" = Some (UArrayAccess (v "a") (UOp BAdd (n 1) (v "i")), []) /\
-    show_min (UArrayAccess (v "a") (UOp BAdd (n 1) (v "i"))) = map (fun t => match t with Token te _ => tk te end) (toks_of "a[(1 + i)]").
+    p "a[1]" = Some (UArrayAccess (v "a") (UNumUnsigned 1 Usize), []) /\
+    p "a[(1)]" = Some (UArrayAccess (v "a") (UNumUnsigned 1 Usize), []) /\
+    p "a[1usize]" = Some (UArrayAccess (v "a") (UNumUnsigned 1 Usize), []) /\
+    p "a[1u8]" = Some (UArrayAccess (v "a") (UNumUnsigned 1 U8), []) /\
+    show_min (UArrayAccess (v "a") (UOp BAdd (n 1) (v "i"))) = map (fun t => match t with Token te _ => tk te end) (toks_of "a[1 + i]") /\
+    show_min (UArrayAccess (v "a") (UNumUnsigned 1 Usize)) = map (fun t => match t with Token te _ => tk te end) (toks_of "a[1usize]").
   Proof. repeat split; vm_compute; reflexivity. Qed.
+
+  Example ex_index_not_wf :
+    parse_expr 9 (show_min (UArrayAccess (v "a") (n 1))) = Some (UArrayAccess (v "a") (UNumUnsigned 1 Usize), []).
+  Proof. vm_compute. reflexivity. Qed.
 
   (* the printer on a larger tree, and back *)
   Definition big : uexpr :=
